@@ -197,16 +197,50 @@ def export_calls(ctx, R):
         stale = [t for t in seen_state if t[1] != "NODES1" or t[2] != "RENDERER1"]
         okc = len(comp) >= 1 and ncomp[0] == 1 and bool(seen_state) and not stale and not cfg.exists_path(cfg.entry, cfg.exit, avoid=comp)
         R.check(okc, "C07.EXPORT-CALLS", f.qual + "|compute first", where(f), "every add_* of this export sees the nodes and renderer of this export's own compute()", "export does not lay out first: compute() runs %d time(s) and the emitters see %s (expected the nodes/renderer returned by this export's compute()): the drawing would use stale or missing nodes" % (ncomp[0], stale[:3] or seen_state[:2]))
+        # which emitters run, how often, and under which condition: read from the evaluated export (wherever the calls are
+        # written: in export itself, in a template method of the base class, in a loop over bound methods), once with
+        # showTicks set and once without
+        def emitter_marks(show):
+            marks = []
+
+            def hook2(fv, args, kwargs, node, st_):
+                if isinstance(fv, Closure) and fv.func.qual == TL + ".compute":
+                    return Seq("tuple", [Opaque("NODES", kind="obj"), Opaque("RENDERER", kind="obj")])
+                if isinstance(fv, Closure) and fv.func.cls is not None and fv.func.name.startswith("add_") and fv.func.cls.qual.startswith("timeline.Timeline"):
+                    st_.events.append(("mark", fv.func.name, node))
+                    return NONE
+                if isinstance(fv, Ext):
+                    return Opaque("%s(...)" % fv.name, kind="obj")
+                return None
+
+            ev2 = new_eval(P, on_call=hook2)
+            st2 = ev2.new_state(f)
+            st2.heap[("self", "nodes")] = Const(None)
+            st2.heap[("self", "renderer")] = Const(None)
+            st2.heap[("self", "options")] = DictV({"showTicks": Const(show), "initialWidth": Num.atom("IW"), "initialHeight": Num.atom("IH")}, fallback="OPT")
+            ev2.call_closure(Closure(f, None, selfv=Opaque("self", cls=P.cls(backend), kind="obj")), [], {}, st2)
+            always, sometimes = [], []
+
+            def walk(evs, cond):
+                for e in evs:
+                    if e[0] == "mark":
+                        (sometimes if cond else always).append(e[1])
+                    elif e[0] == "in-branch":
+                        walk([e[3]], True)
+                    elif e[0] == "loop":
+                        walk(e[3], True)  # a loop over an unknown sequence: unknown number of passes
+                    elif e[0] == "while":
+                        walk(e[2], True)
+
+            walk(st2.events, False)
+            return always, sometimes
+
+        runs = {show: emitter_marks(show) for show in (True, False)}
         for name in ("add_main", "add_timeline", "add_links", "add_labels", "add_dots"):
-            ns = nodes_calling(name)
-            ok = len(ns) == 1 and not cfg.exists_path(cfg.entry, cfg.exit, avoid=ns) and (not comp or cfg.dominates(comp[0], ns[0]))
-            R.check(ok, "C07.EXPORT-CALLS", f.qual + "|" + name, where(f), "%s runs exactly once on every export, after compute()" % name, "%s is not called exactly once on every path of export (after compute())" % name)
-        ax = nodes_calling("add_axis")
-        ok = len(ax) == 1
-        if ok:
-            guards = [t for t in cfg.nodes if t.kind == "test" and cfg.dominates(t, ax[0])]
-            ok = len(guards) == 1 and ntext(guards[0].ast).replace('"', "'") == "%s.options['showTicks']" % selfn and any(cfg.elabel.get((guards[0], s_)) is True and (s_ is ax[0] or cfg.dominates(s_, ax[0])) for s_ in cfg.succ[guards[0]])
-        R.check(ok, "C07.EXPORT-CALLS", f.qual + "|add_axis iff showTicks", where(f), "ticks are drawn iff options['showTicks']", "add_axis is not called exactly when options['showTicks'] is set")
+            ok = all(runs[sh][0].count(name) == 1 and name not in runs[sh][1] for sh in (True, False))
+            R.check(ok, "C07.EXPORT-CALLS", f.qual + "|" + name, where(f), "%s runs exactly once on every export" % name, "%s is not called exactly once on every path of export (unconditional calls: %d with ticks / %d without; conditional calls: %s)" % (name, runs[True][0].count(name), runs[False][0].count(name), name in runs[True][1] or name in runs[False][1]))
+        ok = runs[True][0].count("add_axis") == 1 and runs[False][0].count("add_axis") == 0 and "add_axis" not in runs[True][1] and "add_axis" not in runs[False][1]
+        R.check(ok, "C07.EXPORT-CALLS", f.qual + "|add_axis iff showTicks", where(f), "ticks are drawn iff options['showTicks']", "add_axis is not called exactly when options['showTicks'] is set (with: %d, without: %d, under other conditions: %s)" % (runs[True][0].count("add_axis"), runs[False][0].count("add_axis"), "add_axis" in runs[True][1] or "add_axis" in runs[False][1]))
         # the text returned is the document built
         rets = [n for n in cfg.stmt_nodes() if n.kind == "stmt" and isinstance(n.ast, ast.Return)]
         R.check(bool(rets) and len({ntext(r.ast.value) for r in rets}) == 1, "C07.EXPORT-CALLS", f.qual + "|returns the document", where(f), "one document value is returned on every path", "export returns different values on different paths")
